@@ -266,6 +266,8 @@ def check_soup_random(ctx, case):
 PARTS = {"soup": check_soup, "soup-long": check_soup_random, "fault": check_fault}
 
 
+HYP = {"fault": (lambda ctx: fault_case(), check_fault)}
+
 def run(ctx):
     quick = ctx.tier == "quick"
     maxlen = 3 if quick else 4
@@ -277,4 +279,4 @@ def run(ctx):
         "tokens": st.lists(st.sampled_from(ALPHABET), min_size=maxlen + 1, max_size=6),
     })
     ctx.hyp(long_soup, lambda c: check_soup_random(ctx, c), 1500 if quick else 60000, salt=1)
-    ctx.hyp(fault_case(), lambda c: check_fault(ctx, c), 1500 if quick else 40000, salt=2)
+    ctx.hyp_sharded("fault", 6000 if quick else 80000, salt=2)
